@@ -303,8 +303,29 @@ def t_argmin_k(rng):
   return prog
 
 
+def t_named_multibody(rng):
+  """several rules of one predicate with named arguments (aggregating and not), read back by name."""
+  prog = Program()
+  fact_pred(prog, rng, 'T', 3, rng.randint(2, 5), (1, 2, 3))
+  fact_pred(prog, rng, 'U', 3, rng.randint(2, 5), (1, 2, 3, 4))
+  x, k, v = V('x'), V('k'), V('v')
+  op = rng.choice(['Sum', 'Max', 'Min', 'Count'])
+  derived(prog, 'Q', ['k', 'm', 's'], ['int', 'int', 'int'],
+          [rule('Q', [['k', x], ['m', k], ['s', {'aggop': op, 'e': v}]], atom('T', x, k, v), distinct=True),
+           rule('Q', [['k', x], ['m', OP('+', k, L(10))], ['s', {'aggop': op, 'e': v}]], atom('U', x, k, v), distinct=True)], kind='distinct')
+  derived(prog, 'N', ['k', 'm'], ['int', 'int'],
+          [rule('N', [['k', x], ['m', k]], atom('T', x, k, v)),
+           rule('N', [['k', OP('+', x, L(20))], ['m', k]], atom('U', x, k, v))])
+  derived(prog, 'R', ['col0', 'col1', 'col2'], ['int', 'int', 'int'],
+          [rule('R', [['col0', V('a')], ['col1', V('b')], ['col2', V('c')]], {'atom': 'Q', 'args': [['k', V('a')], ['m', V('b')], ['s', V('c')]]})])
+  derived(prog, 'RN', ['col0', 'col1'], ['int', 'int'],
+          [rule('RN', [['col0', V('a')], ['col1', V('b')]], {'atom': 'N', 'args': [['k', V('a')], ['m', V('b')]]})])
+  prog.features.add('tpl:named-multibody')
+  return prog
+
+
 TEMPLATES = [t_injectible_self_application, t_sibling_combines, t_division, t_outer_only_value, t_multivalued_calls, t_nested_disjunction,
-             t_no_table_rule, t_record_if, t_unary_minus, t_pure_distinct, t_mixed_head, t_argmin_k]
+             t_no_table_rule, t_record_if, t_unary_minus, t_pure_distinct, t_mixed_head, t_argmin_k, t_named_multibody]
 
 
 def build(rng, mask, kwargs):
